@@ -194,6 +194,9 @@ func IsTask() bool {
 
 // New creates a scheduler; must be called inside the bubble.
 func New() *Sched {
+	rawMu.Lock()
+	poolEpoch++
+	rawMu.Unlock()
 	return &Sched{
 		wake:          make(chan struct{}, 1),
 		T0:            time.Now(),
@@ -1185,13 +1188,26 @@ func (c *Cond) Broadcast() {
 // Pool replaces sync.Pool: a deterministic LIFO free list. Dropping the list
 // (what a GC cycle does to a real pool) is a fault the tape may inject.
 type Pool struct {
-	New  func() any
-	free []any
+	New   func() any
+	free  []any
+	epoch uint64
+}
+
+// poolEpoch advances with every run: a pool (also a package-level one) starts
+// every run empty, which sync.Pool permits at any time and which keeps objects
+// bound to one bubble (channels, timers) from leaking into the next run.
+var poolEpoch uint64
+
+func (p *Pool) fresh() {
+	if p.epoch != poolEpoch {
+		p.free, p.epoch = nil, poolEpoch
+	}
 }
 
 func (p *Pool) Get() any {
 	s := S
 	rawMu.Lock()
+	p.fresh()
 	n := len(p.free)
 	rawMu.Unlock()
 	if n > 0 {
@@ -1223,6 +1239,7 @@ func (p *Pool) Get() any {
 
 func (p *Pool) Put(x any) {
 	rawMu.Lock()
+	p.fresh()
 	p.free = append(p.free, x)
 	rawMu.Unlock()
 }
